@@ -554,7 +554,10 @@ var lsmScripts = map[string][]string{
 	// versions written out of order across sources (F4)
 	"order": {"putv a 7 1", "rotate", "flush", "putv a 5 2", "read", "rotate", "flush", "read", "move", "read"},
 	// monotone versions through every kind of maintenance
-	"mono": {"putv a 1 1", "putv b 1 2", "rotate", "flush", "putv a 2 3", "rotate", "flush", "move", "read", "putv a 3 4", "rotate", "flush", "move", "read", "drain", "read", "putv a 4 5", "rotate", "read", "reopen", "read", "flush", "read"},
+	// a drained ingest table whose range lies inside an existing main table: the plan must take that table as bottom
+	"drain_overlap":       {"putv a 1 1", "putv d 1 2", "putv m 1 3", "rotate", "flush", "move", "drain", "read", "putv c 2 4", "putv d 2 5", "rotate", "flush", "move", "drain", "read", "reopen", "read"},
+	"drain_overlap_plain": {"put a 1", "put d 2", "put m 3", "rotate", "flush", "move", "drain", "read", "put c 4", "put d 5", "rotate", "flush", "move", "drain", "read"},
+	"mono":                {"putv a 1 1", "putv b 1 2", "rotate", "flush", "putv a 2 3", "rotate", "flush", "move", "read", "putv a 3 4", "rotate", "flush", "move", "read", "drain", "read", "putv a 4 5", "rotate", "read", "reopen", "read", "flush", "read"},
 }
 
 func (r *lsmRun) script(steps []string, plain bool) {
@@ -641,7 +644,7 @@ func runLsm(c *corr.Ctx) error {
 		n = c.Scale(5, 400)
 	}
 	if plain {
-		for _, name := range []string{"l0_tie", "ingest_tie", "ingest_tie2"} {
+		for _, name := range []string{"l0_tie", "ingest_tie", "ingest_tie2", "drain_overlap_plain"} {
 			runScriptLsm(c, name, true)
 		}
 	} else if c.Prop == "C12" {
@@ -649,7 +652,7 @@ func runLsm(c *corr.Ctx) error {
 			runScriptLsm(c, name, false)
 		}
 	} else {
-		for _, name := range []string{"order", "mono", "l0_tie"} {
+		for _, name := range []string{"order", "mono", "l0_tie", "drain_overlap"} {
 			runScriptLsm(c, name, false)
 		}
 	}
